@@ -475,6 +475,8 @@ def run(ctx):
     shared_plan(ctx, uberjob)
     internal_names(ctx, uberjob)
     one_shot(ctx, uberjob)
+    opaque_arguments(ctx, uberjob)
+    equal_callables(ctx, uberjob)
     timing(ctx, uberjob)
     Plan._call, Plan.lit, rp.run_function_on_graph = w_call, w_lit, w_rfg
     try:
@@ -621,6 +623,92 @@ def one_shot(ctx, uberjob):
                 if got != expect[name]:
                     ctx.fail("unpack:one-shot", "unpack(<%s %s>, 3) gave %r, one iteration yields %r" % (name, how, got, expect[name]),
                              {"iterable": name, "how": how, "max_workers": workers})
+
+
+def opaque_arguments(ctx, uberjob):
+    """A value that gather does not traverse is passed to the function as the very object supplied and UNTOUCHED: one-shot iterables
+    (generator expressions, iter / map / zip objects, an open text stream) given to plan.call - directly, by keyword, nested in a list - are
+    not consumed while the plan is built; the call receives every item."""
+    import io
+
+    def mk(kind):
+        if kind == "genexp":
+            return (i * i for i in range(5)), [0, 1, 4, 9, 16]
+        if kind == "iter":
+            return iter([7, 8, 9]), [7, 8, 9]
+        if kind == "map":
+            return map(str.upper, "xyz"), ["X", "Y", "Z"]
+        if kind == "zip":
+            return zip("ab", "cd"), [("a", "c"), ("b", "d")]
+        return io.StringIO("l1\nl2\n"), ["l1\n", "l2\n"]
+    for kind in ("genexp", "iter", "map", "zip", "stream"):
+        for how in ("positional", "keyword", "in-list", "in-dict", "next"):
+            for workers in (1, 3):
+                plan = uberjob.Plan()
+                it, want = mk(kind)
+                if how == "positional":
+                    node = plan.call(list, it)
+                elif how == "keyword":
+                    node = plan.call(lambda items: list(items), items=it)
+                elif how == "in-list":
+                    node = plan.call(lambda box: list(box[0]), [it, 1])
+                elif how == "in-dict":
+                    node = plan.call(lambda box: list(box["k"]), {"k": it})
+                else:
+                    node, want = plan.call(next, it), want[0]
+                ctx.case(("opaque-argument", kind, how, workers))
+                try:
+                    got = uberjob.run(plan, output=node, max_workers=workers, progress=None)
+                except BaseException as e:      # noqa
+                    got = "raised %s: %r" % (type(e).__name__, getattr(e, "__cause__", None))
+                if got != want:
+                    ctx.fail("opaque-argument:consumed", "a %s passed to plan.call (%s): the call produced %r, direct evaluation gives %r (the one-shot iterable was "
+                             "touched before the call ran)" % (kind, how, got, want), {"iterable": kind, "how": how, "max_workers": workers})
+
+
+def equal_callables(ctx, uberjob):
+    """Distinct callables that compare equal and hash alike (callable objects with value equality, a dataclass with a field excluded
+    from comparison) are different functions: each call runs ITS function - under every retry setting."""
+    import dataclasses
+
+    class Scale:
+        def __init__(self, k):
+            self.k = k
+
+        def __call__(self, x):
+            return x * self.k
+
+        def __eq__(self, other):
+            return isinstance(other, Scale) and self.k == other.k
+
+        def __hash__(self):
+            return hash(self.k)
+
+    @dataclasses.dataclass(frozen=True)
+    class Tag:
+        prefix: str
+        label: str = dataclasses.field(compare=False, default="")
+
+        def __call__(self, x):
+            return "%s:%s:%s" % (self.prefix, self.label, x)
+    for retry in (None, 2, lambda f: f):
+        for workers in (1, 4):
+            for scheduler in (None, "random"):
+                plan = uberjob.Plan()
+                six = plan.call(Scale(2), 3)
+                sixf = plan.call(Scale(2.0), 3)
+                three = plan.call(Scale(True), 3)
+                a = plan.call(Tag("k", "first"), "x")
+                b = plan.call(Tag("k", "second"), "x")
+                ctx.case(("equal-callables", str(retry)[:12], workers, scheduler))
+                try:
+                    got = uberjob.run(plan, output=[six, sixf, three, a, b], retry=retry, max_workers=workers, scheduler=scheduler, progress=None)
+                except BaseException as e:      # noqa
+                    got = "raised %s: %r" % (type(e).__name__, getattr(e, "__cause__", None))
+                want = [6, 6.0, 3, "k:first:x", "k:second:x"]
+                if got != want or [type(v) for v in got] != [type(v) for v in want]:
+                    ctx.fail("equal-callables", "calls to distinct functions that compare equal (retry=%r): run returned %r, direct evaluation gives %r"
+                             % (retry if not callable(retry) else "identity decorator", got, want), {"retry": repr(retry)[:40], "max_workers": workers, "scheduler": scheduler})
 
 
 def timing(ctx, uberjob):
